@@ -903,14 +903,16 @@ def readdir_classification(ctx, tag):
                       "entries selected by %s are pushed to %s (the d_type-less fallback disagrees with the fast path)" % (flag, tgt))
 
 
-def locals_receiving(fn, pattern):
+def locals_receiving(fn, pattern, text=None):
     """Names of the locals of fn whose initialiser or some assignment's right-hand side matches `pattern` (a regular expression
-    searched in the canonical text).  Used to find a local by its ROLE (what it holds), not by its name."""
+    searched in the canonical text, or in text(node) when given - e.g. hoist_text to see through named sub-expressions).  Used to find
+    a local by its ROLE (what it holds), not by its name."""
     rx = re.compile(pattern)
     out = []
+    T = text or fn.text
     for d_ in fn.all("decl"):
         for v_ in fn.nodes[d_].get("vars", []):
-            if v_.get("init") is not None and v_.get("init", -1) >= 0 and rx.search(fn.text(v_["init"])):
+            if v_.get("init") is not None and v_.get("init", -1) >= 0 and rx.search(T(v_["init"])):
                 out.append(v_["name"])
     for i_, n_ in enumerate(fn.nodes):
         if n_["k"] == "bin" and n_.get("op") == "=" and rx.search(fn.text(n_["r"])):
